@@ -258,11 +258,23 @@ def hook_pathlib():
             wrap(pathlib.Path, name)
 
 
+def hooked_print(*a, **k):
+    """the verbose echo of the compiler log (cffi_verbose=True): a write to stdout, which can fail (closed pipe,
+    full device).  A Normal pass is not a step of the model (no protocol file is touched); a failure is the
+    failure of the step the builder is at."""
+    if getattr(W.local, "pid", None) is not None:
+        if W.stop("echo") == "Fault":
+            raise BrokenPipeError(32, "Broken pipe (injected)")
+        return None
+    return print(*a, **k)
+
+
 def install():
     import ffcx.codegeneration.jit as jit
     import ffcx.compiler
     hook_pathlib()
     jit.open = hooked_open
+    jit.print = hooked_print
     jit.os = OsProxy()
     jit.time = TimeProxy()
     jit.cffi = types.SimpleNamespace(FFI=FakeFFI)
@@ -272,7 +284,7 @@ def install():
 
 
 # hook -> may the scheduler inject a Fault there?  (the primitives that can fail in reality)
-FAULTABLE = {"codegen", "compile_start", "compile_end", "write_log", "publish"}
+FAULTABLE = {"codegen", "compile_start", "compile_end", "write_log", "publish", "echo"}
 
 
 def run_schedule(jit, forms, spec, timeout):
@@ -292,7 +304,7 @@ def run_schedule(jit, forms, spec, timeout):
     def request(pid):
         W.local.pid = pid
         try:
-            objs, mod, _ = jit.compile_forms(list(forms), cache_dir=cache, timeout=timeout)
+            objs, mod, _ = jit.compile_forms(list(forms), cache_dir=cache, timeout=timeout, cffi_verbose=True)
             out = "Loaded"
         except KillThread:
             out = "Dead"
@@ -379,7 +391,8 @@ def run_schedule(jit, forms, spec, timeout):
                 ch = "Fault"
         if hook == "load" and state.get(pid) == "builder":
             events.append(("Step", pid, "Normal"))               # B7: handlers restored, return (no fs call)
-        events.append(("Step", pid, ch))
+        if not (hook == "echo" and ch == "Normal"):
+            events.append(("Step", pid, ch))
         if hook == "open_c":
             state[pid] = "waiter" if os.path.exists(os.path.join(cache, W.module_name + ".c")) else "builder"
         with W.cv:
@@ -410,6 +423,29 @@ def run_schedule(jit, forms, spec, timeout):
             "real_compiles": W.ncompiles, "errors": dict(errors)}
 
 
+def default_module_name(jit, objs):
+    """the module name compile_forms itself computes for the scheduled requests (default arguments)"""
+    class _Stop(Exception):
+        pass
+    seen = {}
+
+    def stop(module_name, object_names, cache_dir, timeout):
+        seen["m"] = module_name
+        raise _Stop()
+    saved = jit.get_cached_module
+    jit.get_cached_module = stop
+    d = tempfile.mkdtemp(prefix="vfjitn_")
+    try:
+        try:
+            jit.compile_forms(list(objs), cache_dir=d, cffi_verbose=True)
+        except _Stop:
+            pass
+    finally:
+        jit.get_cached_module = saved
+        shutil.rmtree(d, ignore_errors=True)
+    return seen["m"]
+
+
 def main():
     job = pickle.load(open(sys.argv[1], "rb"))
     objs, options, ns = ffx.build_case(FORM)
@@ -426,10 +462,7 @@ def main():
     out = []
     for spec in job["schedules"]:
         # module name under the scheduled run's (default) arguments
-        import ffcx.naming, ffcx.options
-        p = ffcx.options.get_options({})
-        W.module_name = "libffcx_forms_" + ffcx.naming.compute_signature(
-            list(objs), jit._compute_option_signature(p) + jit._compilation_signature([], False))
+        W.module_name = default_module_name(jit, objs)
         out.append(run_schedule(jit, objs, spec, job.get("timeout", 3)))
     pickle.dump(out, open(sys.argv[2], "wb"))
 
